@@ -326,10 +326,15 @@ def _reverse_squeeze(self, args, kwargs, out):
         raise RuntimeError(
             "Cannot use td.squeeze() as a decorator if the dimension is implicit."
         )
-    if not out.is_locked:
-        return out.update(self.unsqueeze(dim), inplace=False)
+    if self.ndim == out.ndim:
+        # the dim was not a singleton: squeeze left the shape unchanged
+        unsqueezed = self
     else:
-        return out.update_(self.unsqueeze(dim))
+        unsqueezed = self.unsqueeze(dim)
+    if not out.is_locked:
+        return out.update(unsqueezed, inplace=False)
+    else:
+        return out.update_(unsqueezed)
 
 
 LAST_OP_MAPS["squeeze"] = _reverse_squeeze
